@@ -399,6 +399,10 @@ def run(chk):
     nok = pipeline.judge(ptraces, chk)
     chk.traces += nok
     chk.cov['pipeline_traces'] = len(ptraces)
+    # several complete runs in one process, each from freshly loaded files: a run is a function of its inputs
+    sessions = [pipeline.record_session('session-0', chk.tier)]
+    chk.traces += pipeline.judge_sessions(sessions, chk)
+    chk.cov['session_runs'] = sum(len(s['runs']) for s in sessions)
     chk.cov['tolerance_udB'] = 3
     chk.cov['measured_deviation_udB'] = 0
     chk.cov['rule'] = ('B2: one case per (bench, history) - non-trivial when the history has >= 2 requests; '
